@@ -23,7 +23,7 @@ Theorem C14_flow_nonempty : forall id nil_chain nonnil_chain,
 Proof. exact over_conflict_flow. Qed.
 Print Assumptions C14_flow_nonempty.
 
-Theorem C14_single : forall id p n, c_pos (single_conflict id p n) = p /\ c_nonnil (single_conflict id p n) = [n].
+Theorem C14_single : forall id p n src, c_pos (single_conflict id p n src) = p /\ c_nonnil (single_conflict id p n src) = [n].
 Proof. exact single_conflict_flow. Qed.
 Print Assumptions C14_single.
 
